@@ -42,6 +42,11 @@ def cases(tier, seed):
             for obj in objs:
                 for si in scs:
                     out.append({"n": len(vk), "vk": vk, "rows": [list(r) for r in rows], "obj": obj, "si": si})
+    # non-default activity tolerances (0 is a supported value: only points exactly on a bound are active)
+    for vk in vks[:4] + [["fixed", "boxed"]]:
+        for rows in rowsets[:2]:
+            for atol in (0.0, 1e-4):
+                out.append({"n": len(vk), "vk": vk, "rows": [list(r) for r in rows], "obj": objs[0], "si": 0, "active_tol": atol})
     return out
 
 
@@ -100,7 +105,7 @@ def run_case(case):
     m = len(case["rows"])
     sc = S.scalings(n, m, [0.625, -1.25][:n])[case["si"]]
     prob = UserProblem(spec)
-    params = make_params({}, sc)
+    params = make_params({"params": {"active_tol": case["active_tol"]}} if "active_tol" in case else {}, sc)
     tr = Transformation(prob, params)
     P, ev = tr.trans_problem, tr.evaluator
     F = O.Funcs(spec)
